@@ -67,6 +67,8 @@ class Opaque:
     def __repr__(self):
         return f'<Opaque {self.name}>'
 
+    opaque_standin = True       # Interp.equal: equality of two different stand-ins (or with a concrete tree) is unknown
+
 
 class OpaqueExpr(Opaque):
     """Opaque stand-in for a GeomExpression / Surface operand of the MIP layer: it can be inverted; what comes back
